@@ -199,6 +199,8 @@ func record(st *vk.FieldStat, key string, h header) {
 
 var layouts = map[int]*log.JSONLayout{}
 
+var laterEvent = &log.Event{Level: log.InfoLevel, Time: time.Date(2026, 5, 6, 7, 8, 9, 0, time.UTC), File: "later.go", Line: 2, Tag: "_later", Fields: []log.Field{log.String("k", "~~~~~~~~~~~~~~~~")}}
+
 // TestC07_Direct formats generated events with JSONLayout.ToBytes.
 func TestC07_Direct(t *testing.T) {
 	vk.Rule(rule)
@@ -224,7 +226,19 @@ func TestC07_Direct(t *testing.T) {
 			vk.Class("after-oversized-line")
 		}
 		e := &log.Event{Level: h.Level, Time: h.Time, File: h.File, Line: h.Line, Tag: h.Tag, Fields: fld.Fields, CtxString: h.Ctx, CtxFields: ctx.Fields}
-		line := bytes.Clone(lay.ToBytes(e))
+		// the buffer-reuse cap (property bufferCap) at and around the capacities a line buffer really takes
+		bc := rapid.SampledFrom([]int{10240, 10240, 64, 128, 256, 512, 1024, 2048, 4096, 8192, 100, 1000}).Draw(t, "bufferCap")
+		log.BufferCap.Store(int32(bc))
+		defer log.BufferCap.Store(10240)
+		vk.Class(fmt.Sprintf("bufferCap:%d", bc))
+		// the line is the caller's once ToBytes has returned (an asynchronous logger queues it): it is
+		// held un-copied while the same goroutine formats a later event
+		raw := lay.ToBytes(e)
+		line := bytes.Clone(raw)
+		_ = lay.ToBytes(laterEvent)
+		if !bytes.Equal(raw, line) {
+			t.Fatalf("VERIF-VIOLATION C07: the line handed out by ToBytes changed while a later event was formatted (bufferCap=%d, len=%d cap=%d)\nwas: %q\nnow: %q", bc, len(raw), cap(raw), line, raw)
+		}
 		desc := h.desc() + " ctx=[" + strings.Join(ctx.Desc, "; ") + "] fields=[" + strings.Join(fld.Desc, "; ") + "]"
 		record(&st, desc, h)
 		if len(desc) < 400 {
